@@ -93,9 +93,9 @@ NoOut          == [cls |-> "",       kind |-> "",    arg |-> "",  v |-> 0]
 \*                                    read that must reach the session
 \*   envfail  def ev = 4; error 'boom'
 \*   envread  ev                      (kept environment only)
-\* (the kept environment adds a bit of state - does it hold ev - and is shared
-\* by the interpreters: it goes with the small two-interpreter alphabet and
-\* the wide one)
+\* They have alphabets of their own (C10Env1: one interpreter, C10Env2: two
+\* interpreters sharing the kept environment) next to a few session commands,
+\* so that the histories over the core alphabet stay what they were.
 C10EnvOne(i) ==
   { Cmd("envcall", i, "x", 0, "fresh", ""), Cmd("envcall", i, "x", 0, "child", ""),
     Cmd("envfail", i, "", 0, "child", "") }
@@ -112,16 +112,22 @@ C10Core(i) ==
     Cmd("bump", i, "good", 0, "", "") }
   \cup { Cmd("require", i, "", 0, m, "plain") :
            m \in {"good", "good2", "missing", "broken", "synbad", "cyca"} }
-  \cup C10EnvOne(i)
 C10Wide(i) ==
   C10Core(i) \cup { Cmd("require", i, "", 0, "cycb", "plain"),
                     Cmd("require", i, "", 0, "good", "as"),
                     Cmd("require", i, "", 0, "good2", "unq"),
                     Cmd("require", i, "", 0, "good", "imp") }
-              \cup C10EnvKept(i)
 C10Two(i) ==
   { Cmd("def", i, "x", 1, "", ""),      Cmd("bump", i, "good", 0, "", "") }
   \cup { Cmd("require", i, "", 0, m, "plain") : m \in {"good", "broken", "missing"} }
+C10Env1(i) ==
+  { Cmd("def", i, "x", 1, "", ""),      Cmd("read", i, "x", 0, "", ""),
+    Cmd("failexpr", i, "y", 1, "", ""), Cmd("require", i, "", 0, "good", "plain"),
+    Cmd("require", i, "", 0, "missing", "plain") }
+  \cup C10EnvOne(i) \cup C10EnvKept(i)
+C10Env2(i) ==
+  { Cmd("def", i, "x", 1, "", ""),      Cmd("read", i, "x", 0, "", ""),
+    Cmd("require", i, "", 0, "good", "plain"), Cmd("require", i, "", 0, "missing", "plain") }
   \cup C10EnvKept(i) \cup { Cmd("envcall", i, "x", 0, "child", "") }
 C11Cmds(i) ==
   { Cmd("require", i, "", 0, m, IForms[f]) : m \in ModIds, f \in DOMAIN IForms }
@@ -130,7 +136,7 @@ C11Cmds(i) ==
 \* c11 with a single entry point: every form of requiring the first module
 \* (all graph shapes are generated, so this reaches every rooted shape)
 C11Entry(i) ==
-  { Cmd("require", i, "", 0, ModSeq[1], IForms[f]) : f \in DOMAIN IForms }
+  { Cmd("require", i, "", 0, ModSeq[1], Forms[f]) : f \in DOMAIN Forms }
   \cup { Cmd("bump", i, n, 1, "", "") : n \in UNION {{m, Alias(m), NBump(m)} : m \in ModIds} }
 
 \* c11, bundled modules under every spelling (and a user module under a
